@@ -294,10 +294,16 @@ class Interp:
 
         route = spec["route"]
         ctx = self.ctx
+        pe = spec.get("pass_exc", False)
+        # pass_exception is optional (default False): half of the plain registrations leave it out, some name it
+        rest: tuple = (pe,) if pe or spec["id"] % 2 else ()
+        kw: dict = {}
+        if pe and spec["id"] % 3 == 0:
+            rest, kw = (), {"pass_exception": True}
         if route == "ctx":
-            ctx.add_teardown_callback(make_callback(spec, spec.get("pass_exc", False)), spec.get("pass_exc", False))
+            ctx.add_teardown_callback(make_callback(spec, pe), *rest, **kw)
         elif route == "module":
-            add_teardown_callback(make_callback(spec, spec.get("pass_exc", False)), spec.get("pass_exc", False))
+            add_teardown_callback(make_callback(spec, pe), *rest, **kw)
         elif route == "resource":
             obj = object()
             types = [_RT0, _RT1, _RT2][: spec["ntypes"]] if spec.get("ntypes") else ()
